@@ -18,6 +18,10 @@ JOBS = [
 # the public API functions are one-line forwarders to the bodies under contract: checked mechanically (DESIGN §3.5b)
 from units.common_forward import forward_job
 JOBS = list(JOBS) + [forward_job("c14")]
+# pthread_once of the pthread-wrapping build reaches myth_once_body through src/myth_wrap_pthread.c (an anchor of this
+# property): the generated forwarding obligations of that wrapper group are part of this check
+import importlib as _il
+JOBS = list(JOBS) + [j for j in _il.import_module("units.c16").JOBS if j.name == "c16.forward.thread"]
 META = {
  "level": "proof",
  "level_text": "Rely/guarantee contracts on the real myth_once_body / try_set / wait_until: the election CAS, the single run of the init routine by the elected caller, and the return only after completion hold under arbitrary interference before every read and CAS; the waiting loop is closed by a loop contract.",
